@@ -22,7 +22,7 @@ import (
 const c05Tol = 2e-6
 
 func init() {
-	min := map[string]int64{"paths": 10000, "ops": 100000, "draws": 10000, "smooth_reflected": 1000, "smooth_from_pen": 1000, "rel_move_after_close": 1000, "nonsquare_maps": 5000, "offset_rects": 5000}
+	min := map[string]int64{"lattice_mode": 5000, "lattice_operand_equals_pen_pixels": 5000, "paths": 10000, "ops": 100000, "draws": 10000, "smooth_reflected": 1000, "smooth_from_pen": 1000, "rel_move_after_close": 1000, "nonsquare_maps": 5000, "offset_rects": 5000}
 	for _, a := range gen.NonArcVerbs {
 		for _, b := range gen.NonArcVerbs {
 			min["pair/"+a.String()+">"+b.String()] = 50
@@ -82,6 +82,21 @@ func c05Path(c *run.Ctx, idx uint64) {
 	if r.Chance(1, 5) {
 		coord = func(r *run.Rng) float32 { return float32(r.Range(-64, 63)) }
 	}
+	// Lattice mode: integer viewBox, integer scale factors, integer
+	// coordinates, and operands that repeat the previous point's *pixel*
+	// coordinates: numbers of different coordinate spaces coincide, which is
+	// what it takes to notice that two spaces were confused.
+	lattice := r.Chance(1, 8)
+	if lattice {
+		c.Count("lattice_mode", 1)
+		cfg.vb = ivg.ViewBox{MinX: float32(r.Range(-40, 0)), MinY: float32(r.Range(-40, 0))}
+		cfg.vb.MaxX, cfg.vb.MaxY = cfg.vb.MinX+float32(r.Range(8, 64)), cfg.vb.MinY+float32(r.Range(8, 64))
+		w, h := int(cfg.vb.MaxX-cfg.vb.MinX)*r.Pick(1, 2, 3, 4, 8), int(cfg.vb.MaxY-cfg.vb.MinY)*r.Pick(1, 2, 3, 4, 8)
+		cfg.rect = image.Rect(0, 0, w, h).Add(image.Pt(r.Pick(0, 0, 8, 16), r.Pick(0, 0, 8, 16)))
+		coord = func(r *run.Rng) float32 { return float32(r.Range(-40, 40)) }
+	}
+	sxL := float32(cfg.rect.Dx()) / (cfg.vb.MaxX - cfg.vb.MinX)
+	syL := float32(cfg.rect.Dy()) / (cfg.vb.MaxY - cfg.vb.MinY)
 	o := gen.Opts{Coord: coord, Angle: func(r *run.Rng) float32 { return float32(r.F64()) }}
 	// the path program
 	ops := []rec.Op{{K: rec.KStartPath, Adj: 0, F: [6]float32{coord(r), coord(r)}}}
@@ -96,7 +111,19 @@ func c05Path(c *run.Ctx, idx uint64) {
 			l = r.Range(2, 4)
 		}
 		for ; l > 0; l-- {
-			ops = append(ops, gen.DrawOp(r, k, &o))
+			op := gen.DrawOp(r, k, &o)
+			if lattice && r.Chance(1, 4) && len(ops) > 0 {
+				// operands equal to the pixel coordinates of the previous absolute point
+				if p := ops[len(ops)-1]; !p.K.IsRel() && p.K.NArgs() >= 2 && p.K != rec.KAbsArcTo {
+					n := p.K.NArgs()
+					px, py := sxL*(p.F[n-2]-cfg.vb.MinX), syL*(p.F[n-1]-cfg.vb.MinY)
+					for j := 0; j+1 < op.K.NArgs() && op.K != rec.KAbsArcTo && op.K != rec.KRelArcTo; j += 2 {
+						op.F[j], op.F[j+1] = px, py
+					}
+					c.Count("lattice_operand_equals_pen_pixels", 1)
+				}
+			}
+			ops = append(ops, op)
 		}
 	}
 	ops = append(ops, rec.Op{K: rec.KClosePathEndPath})
